@@ -15,7 +15,13 @@ import (
 
 type Rng struct{ s uint64 }
 
-func NewRng(seed uint64) *Rng { return &Rng{s: seed*0x9E3779B97F4A7C15 + 0x1234567} }
+func NewRng(seed uint64) *Rng {
+	// the state advances by a constant, so the seed goes through the output mix first: otherwise seed+1 would be the
+	// same stream one step later
+	r := &Rng{s: seed}
+	r.s = r.U64() ^ 0x1234567
+	return r
+}
 
 func (r *Rng) U64() uint64 {
 	r.s += 0x9E3779B97F4A7C15
@@ -562,7 +568,25 @@ func generate(c *GenCtx) []Op {
 		genCorpus(c)
 		genRandom(c, "rand", c.n(20000, 400000), 3)
 	}
+	genObservers(c)
 	return c.ops
+}
+
+// genObservers re-runs a sample of the searches as `[E, @]`: the second element observes the document after E has been
+// evaluated in the same call, so an operation that writes into its input shows up as a wrong second element.
+func genObservers(c *GenCtx) {
+	n := len(c.ops)
+	for i := 0; i < n; i++ {
+		o := c.ops[i]
+		if o.Kind != "S" || o.Risky || len(o.Expr) > 400 || len(o.Data) > 4000 || i%10 != 3 {
+			continue
+		}
+		w := "[" + string(o.Expr) + ", @]"
+		if i%20 == 3 {
+			w = "[@, " + string(o.Expr) + ", @]"
+		}
+		c.ops = append(c.ops, Op{Kind: "S", Expr: []byte(w), Data: o.Data, Family: "observe"})
+	}
 }
 
 func judges(c *GenCtx, ops []Op, model map[int]string) []Diff {
